@@ -462,6 +462,9 @@ type c12Case struct {
 	Tok  int      `json:"unlimited_token"`
 	Old  []int64  `json:"old"`
 	New  []int64  `json:"new"`
+	// Then, when set, is a second, chained rewrite New -> Then executed on the SAME executor (cache kept) right
+	// after Old -> New; it is judged write by write with the same oracle (keys carry the suffix |chained).
+	Then []int64 `json:"then,omitempty"`
 	Show []string `json:"show,omitempty"`
 	// Reject lists the updater-call numbers whose file write is made to fail (kernel-reject emulation).
 	Reject []int `json:"kernel_rejected_calls,omitempty"`
@@ -480,6 +483,9 @@ type c12Run struct {
 	cur   []string // tracked raw contents
 	sem   []int64  // tracked semantic values
 	phase string
+	from  []int64 // start and target of the batch that is running (judging is relative to them)
+	to    []int64
+	sfx   string // key suffix of the running phase ("|chained" for the chained rewrite and what follows it)
 	call  int
 	immOn bool
 	rej   map[int]bool
@@ -495,6 +501,8 @@ type c12Run struct {
 	nUnionW    int
 	nReadback  int
 	nBlocked   int
+	nChained   int
+	nSecond    int
 	maxPerCall int
 }
 
@@ -577,7 +585,7 @@ func (r *c12Run) after(node int, op string) {
 	}
 	v, ok := r.k.parse(raw, r.c.V2)
 	if !ok {
-		r.violate(r.keyf("unparsable-content-written"), fmt.Sprintf("file %s received %q, which is not a value of this interface", c12Slots[r.t.Slot[node]], raw))
+		r.violate(r.keyf("unparsable-content-written")+r.sfx, fmt.Sprintf("file %s received %q, which is not a value of this interface", c12Slots[r.t.Slot[node]], raw))
 		r.cur[node] = raw
 		return
 	}
@@ -586,18 +594,18 @@ func (r *c12Run) after(node int, op string) {
 		r.rejectNew = append(r.rejectNew, r.call)
 	}
 	if r.phase != "prime" {
-		if r.k.IsSet && op == "merge" && v != r.c.New[node] {
+		if r.k.IsSet && op == "merge" && v != r.to[node] {
 			r.nUnionW++
 		}
-		if !c12Eq(r.sem, r.c.Old) && !c12Eq(r.sem, r.c.New) {
+		if !c12Eq(r.sem, r.from) && !c12Eq(r.sem, r.to) {
 			r.nInter++
 		}
 		if clause, p, c := c12HierarchyBroken(r.t, r.k, r.sem); clause != "" {
 			pd := "none"
 			if p >= 0 {
-				pd = r.k.dir(r.c.Old[p], r.c.New[p])
+				pd = r.k.dir(r.from[p], r.to[p])
 			}
-			r.violate(r.keyf(clause)+"|parent-"+pd+",child-"+r.k.dir(r.c.Old[c], r.c.New[c]),
+			r.violate(r.keyf(clause)+"|parent-"+pd+",child-"+r.k.dir(r.from[c], r.to[c])+r.sfx,
 				fmt.Sprintf("after file write %d (%s) a crash leaves %s: child %s=%s vs parent %s=%s", r.nWrites, r.trace[len(r.trace)-1],
 					clause, c12Slots[r.t.Slot[c]], r.k.show(r.sem[c]), c12SlotName(r.t, p), c12ShowAt(r.k, r.sem, p)))
 		}
@@ -742,40 +750,56 @@ func c12Exec(rig *c12Rig, kinds []c12Kind, c *c12Case) *c12Run {
 
 	if c.Mode != "cold" {
 		// the cache is filled the way production fills it: by an earlier batch that applied the old assignment
-		r.phase = "prime"
+		r.phase, r.from, r.to = "prime", c.Old, c.Old
 		e.LeveledUpdateBatch(r.batch(c.Old))
 		if !c12Eq(r.sem, c.Old) {
 			r.violate(r.keyf("priming-batch-changed-values"), fmt.Sprintf("a batch with target == current values changed them: %v", r.trace))
 			return r
 		}
 	}
-	r.phase = "main"
-	for i := range r.writes {
-		r.writes[i] = 0
-	}
-	e.LeveledUpdateBatch(r.batch(c.New))
-	if full := r.readAll(); strings.Join(full, "|") != strings.Join(r.cur, "|") {
-		panic(fmt.Sprintf("c12 harness: tracked contents %q differ from files %q (missed write event)", r.cur, full))
-	}
-	for i := 0; i < n; i++ {
-		if r.sem[i] != c.New[i] {
-			r.violate(r.keyf("final-not-target")+"|"+r.k.dir(c.Old[i], c.New[i]),
-				fmt.Sprintf("batch finished but %s holds %s (raw %q), target %s (old %s)", c12Slots[t.Slot[i]], r.k.show(r.sem[i]), r.cur[i], r.k.show(c.New[i]), r.k.show(c.Old[i])))
+	// rewrite judges one batch from -> to on the running executor: every write through after(), then the end state
+	rewrite := func(phase, sfx string, from, to []int64) bool {
+		r.phase, r.sfx, r.from, r.to = phase, sfx, from, to
+		for i := range r.writes {
+			r.writes[i] = 0
 		}
-		if c.Old[i] == c.New[i] && r.writes[i] != 0 {
-			r.violate(r.keyf("unchanged-file-rewritten"),
-				fmt.Sprintf("%s has old == new == %s but received %d write(s)", c12Slots[t.Slot[i]], r.k.show(c.Old[i]), r.writes[i]))
+		e.LeveledUpdateBatch(r.batch(to))
+		if full := r.readAll(); strings.Join(full, "|") != strings.Join(r.cur, "|") {
+			panic(fmt.Sprintf("c12 harness: tracked contents %q differ from files %q (missed write event)", r.cur, full))
 		}
+		reached := true
+		for i := 0; i < n; i++ {
+			if r.sem[i] != to[i] {
+				reached = false
+				r.violate(r.keyf("final-not-target")+"|"+r.k.dir(from[i], to[i])+sfx,
+					fmt.Sprintf("%s batch finished but %s holds %s (raw %q), target %s (before the batch %s)", phase, c12Slots[t.Slot[i]], r.k.show(r.sem[i]), r.cur[i], r.k.show(to[i]), r.k.show(from[i])))
+			}
+			if from[i] == to[i] && r.writes[i] != 0 {
+				r.violate(r.keyf("unchanged-file-rewritten")+sfx,
+					fmt.Sprintf("%s batch: %s has old == new == %s but received %d write(s)", phase, c12Slots[t.Slot[i]], r.k.show(from[i]), r.writes[i]))
+			}
+		}
+		return reached
 	}
-	final := append([]int64(nil), r.sem...)
-	r.phase = "second"
-	for i := range r.writes {
-		r.writes[i] = 0
+	last := c.New
+	ok := rewrite("main", "", c.Old, c.New)
+	if ok && c.Then != nil {
+		// chained rewrite on the same executor: the cache now holds whatever the first rewrite left in it
+		r.nChained++
+		ok = rewrite("chained", "|chained", c.New, c.Then)
+		last = c.Then
 	}
-	before := r.nWrites
-	e.LeveledUpdateBatch(r.batch(c.New))
-	if r.nWrites != before && c12Eq(final, c.New) {
-		r.violate(r.keyf("second-batch-writes"), fmt.Sprintf("an identical second batch performed %d file write(s)", r.nWrites-before))
+	if ok {
+		r.phase, r.from, r.to = "second", last, last
+		for i := range r.writes {
+			r.writes[i] = 0
+		}
+		before := r.nWrites
+		e.LeveledUpdateBatch(r.batch(last))
+		r.nSecond++
+		if r.nWrites != before {
+			r.violate(r.keyf("second-batch-writes")+r.sfx, fmt.Sprintf("an identical second batch performed %d file write(s)", r.nWrites-before))
+		}
 	}
 	return r
 }
@@ -825,7 +849,20 @@ func c12Judge(rig *c12Rig, kinds []c12Kind, c c12Case, res *mc.Result, l *mc.Loc
 	}
 	l.Count("final_checks_changed_files", int64(changed))
 	l.Count("unchanged_files_checked", int64(same))
-	l.Count("second_batch_checked", 1)
+	l.Count("second_batch_checked", int64(r.nSecond))
+	l.Count("chained_rewrites_judged", int64(r.nChained))
+	if c.Then != nil {
+		for i := range c.New {
+			if c.New[i] == c.Then[i] {
+				l.Count("unchanged_files_checked", 1)
+			} else {
+				l.Count("final_checks_changed_files", 1)
+			}
+		}
+	}
+	if l.Evals%4099 == 1 || r.nWrites >= 5 && l.Evals%257 == 2 {
+		res.Sample(fmt.Sprintf("%s -> %d file writes, each judged as a crash point: %s", strings.Join(c12ShowCase(r.k, &c), " "), r.nWrites, strings.Join(r.trace, " ; ")))
+	}
 	for d := range dirs {
 		l.Count("cases_with_"+d, 1)
 	}
@@ -843,7 +880,11 @@ func c12ShowCase(k *c12Kind, c *c12Case) []string {
 	t := c12Trees[c.Tree]
 	out := []string{fmt.Sprintf("%s v2=%v %s cache=%s:", c.Kind, c.V2, c.Tree, c.Mode)}
 	for i := range c.Old {
-		out = append(out, fmt.Sprintf("%s:%s->%s", c12Slots[t.Slot[i]], k.show(c.Old[i]), k.show(c.New[i])))
+		x := fmt.Sprintf("%s:%s->%s", c12Slots[t.Slot[i]], k.show(c.Old[i]), k.show(c.New[i]))
+		if c.Then != nil {
+			x += "->" + k.show(c.Then[i])
+		}
+		out = append(out, x)
 	}
 	return out
 }
